@@ -219,7 +219,7 @@ func checkC08(c *Check) {
 			for _, a := range factsAt(call.Block()) {
 				if a.Op == "eq" && isNilConst(a.Y) {
 					if ld, isLd := a.X.(*ssa.UnOp); isLd {
-						if al, isA := ld.X.(*ssa.Alloc); isA && al.Comment == "err" && instrDominates(scan, ld) {
+						if al, isA := ld.X.(*ssa.Alloc); isA && allocPinnedName(al) == "err" && instrDominates(scan, ld) {
 							// captured by the callback
 							for _, b := range scan.Common().Args[len(scan.Common().Args)-1].(*ssa.MakeClosure).Bindings {
 								if b == ssa.Value(al) {
